@@ -18,7 +18,8 @@ RULE = ("strings from 7 sources — valid generated queries (filters, functions,
         "that compiles is applied to roots and children of every JSON kind, empty containers and depth-100 documents. Refuted by any "
         "exception that is not a JSONPathError, by str(exc) raising, or by the worker dying. Non-trivial: the string is not a plain "
         "generated valid query (edited/truncated/soup/garbage/nesting/extreme) or was evaluated on >=1 document; distinct by string. "
-        "raise_sites = (file:line, exception type) places inside the package where an exception was raised during the run (sys.monitoring RAISE).")
+        "raise_sites = (file:line, exception type) places inside the package where an exception was raised during the run (sys.monitoring RAISE)."
+        " 30% of the evaluations also run on a nondeterministic environment.")
 ASSUMPTIONS = ["bounds of the property: <=1024 characters, bracket/parenthesis/filter nesting <=32, Unicode scalar values only",
                "a wall-clock watchdog firing is reported as inconclusive, not as a violation"]
 DECIDING_MONITORS = ["M-compile"]
